@@ -8,12 +8,24 @@
    padded to ~pad bytes), and only then reads - more than 9999 responses are pending on one
    connection, its send queue is full and the producer blocks.  For the model this is just
    nl + nf requests ([expand]); its messages are delivered after the last request instead of
-   after each one (any calm schedule yields the same observation: C02_relayed_unchanged). *)
+   after each one (any calm schedule yields the same observation: C02_relayed_unchanged).
+   [HBadMsg c mid k] = the client of c sends a well-framed Data packet whose MESSAGE cannot be
+   decoded (kind k: gzip flag with a body that is no zlib stream, request resp. notification; a
+   compressed route code that is in no dictionary; a route length beyond the packet; an invalid
+   message type; mid = the request id in its header): the server ends the connection - for the
+   model this is the close of c ([OClose c]); nothing is answered under mid.
+   [HGone c ms nots] = the client of c sends the notifications nots (route, tag) while the
+   front-ends' service goroutines are occupied for ms real milliseconds, and closes its socket
+   at once, without waiting for anything: the network side marks the session closed before the
+   service has handled them - they must still reach their handlers exactly once.  For the model:
+   the notifications, then [OClose c] (the driver drains before, so nothing else is outstanding). *)
 From Cell2V Require Import Common.Tac Common.ListX Common.AList C02.Model C02.Spec.
 
 Inductive hop :=
 | H (o : op)
-| HBurst (c mid0 tag0 pad nl nf : Z).
+| HBurst (c mid0 tag0 pad nl nf : Z)
+| HBadMsg (c mid k : Z)
+| HGone (c ms : Z) (nots : list (route * Z)).
 
 Fixpoint zseq_from (from : Z) (fuel : nat) : list Z :=
   match fuel with O => [] | S f => from :: zseq_from (from + 1) f end.
@@ -26,6 +38,8 @@ Definition expand (h : hop) : list op :=
   | HBurst c mid0 tag0 _ nl nf =>
       map (fun i => OReq c (mid0 + i) (RT 0 MEcho) (tag0 + i)) (zseq 0 nl)
       ++ map (fun i => OReq c (mid0 + nl + i) (RT 2 MEcho) (tag0 + nl + i)) (zseq 0 nf)
+  | HBadMsg c _ _ => [OClose c]
+  | HGone c _ nots => map (fun rt => ONotify c (fst rt) (snd rt)) nots ++ [OClose c]
   end.
 
 (* Data packets a client sends between a re-handshake and its ack are ignored by the server
@@ -33,12 +47,16 @@ Definition expand (h : hop) : list op :=
    them from the history, everything else stays. *)
 Definition hop_conn (h : hop) : option Z :=
   match h with
-  | H (OReq c _ _ _) | H (ONotify c _ _) | HBurst c _ _ _ _ _ => Some c
+  | H (OReq c _ _ _) | H (ONotify c _ _) | HBurst c _ _ _ _ _ | HBadMsg c _ _ => Some c
   | _ => None
   end.
 
 Definition hop_step (cs : alist conn) (h : hop) : alist conn :=
-  match h with H o => conn_step cs o | HBurst _ _ _ _ _ _ => cs end.
+  match h with
+  | H o => conn_step cs o
+  | HBadMsg c _ _ | HGone c _ _ => conn_step cs (OClose c)
+  | HBurst _ _ _ _ _ _ => cs
+  end.
 
 (* cs: the connection table so far (a re-handshake only counts on an open connection) *)
 Fixpoint prep_from (cs : alist conn) (notready : list Z) (hs : list hop) : list hop :=
@@ -49,6 +67,8 @@ Fixpoint prep_from (cs : alist conn) (notready : list Z) (hs : list hop) : list 
       | H (OHandshake c) =>
           h :: prep_from cs (if is_open cs c then c :: notready else notready) r
       | H (OAck c) => h :: prep_from cs (filter (fun x => negb (Z.eqb x c)) notready) r
+      | HGone c ms nots =>   (* in the handshake state the notifications are ignored, the close is not *)
+          (if zmem c notready then HGone c ms [] else h) :: prep_from (hop_step cs h) notready r
       | _ =>
           match hop_conn h with
           | Some c => if zmem c notready then prep_from cs notready r
@@ -70,6 +90,8 @@ Definition hstep (s : st) (h : hop) : st :=
   | H o => sync_step rf0 itype0 s o
   | HBurst _ _ _ _ _ _ =>
       pass itype0 (pass itype0 (fold_left (op_step rf0 itype0) (expand h) s))
+  | HBadMsg c _ _ => sync_step rf0 itype0 s (OClose c)
+  | HGone _ _ _ => fold_left (sync_step rf0 itype0) (expand h) s
   end.
 
 Definition model_obs (hs : list hop) : obs := observe (finish itype0 (fold_left hstep (prep hs) init)).
